@@ -838,6 +838,8 @@ def r_call_locals(repo, rep, R):
         for idx, what in ((3, 'allowed-root id set'), (9, 'rule cache'), (10, 'search configuration')):
             t = a[idx]
             ok = t[0] == 'call' and t[1] == N('__cdecl__')
+            if not ok and t[0] == 'record' and what == 'search configuration':
+                ok = True       # a struct filled field by field in a helper and handed back by value: a local of this call all the same
             rep.check(ok, R, w, 'run:call-local:%s' % what.replace(' ', '-'),
                       'the %s handed to the search is a local of this run() call' % what,
                       'the %s handed to the search is %s, not a variable declared inside run(): category ids are only valid within one call'
@@ -914,13 +916,43 @@ def r_root_ids(repo, rep, R, table_info):
               'root categories are not registered through the category table')
 
 
+CONFIG_FIELDS = ['num_tags', 'unary_penalty', 'beta', 'use_beta', 'pruning_size', 'nbest', 'max_step']
+
+
+def config_reader(mod):
+    """the function that fills the search configuration from the option dictionary: `init_config(cfg, kwargs)`, or -- by
+    role -- the one module-level function that stores most of the configuration fields as attributes of one name (a pointer
+    parameter, or a struct declared in the function and returned by value).  -> (function, struct name, dictionary name)"""
+    ic = mod.get('init_config', required=False)
+    if ic is not None and len(ic.args.args) >= 2:
+        return ic, ic.args.args[0].arg, ic.args.args[1].arg
+    cands = []
+    for f_ in mod.tree.body:
+        if not isinstance(f_, ast.FunctionDef):
+            continue
+        by_name = {}
+        for n_ in ast.walk(f_):
+            if isinstance(n_, ast.Assign):
+                for t_ in n_.targets:
+                    if isinstance(t_, ast.Attribute) and isinstance(t_.value, ast.Name) and t_.attr in CONFIG_FIELDS:
+                        by_name.setdefault(t_.value.id, set()).add(t_.attr)
+        for nm_, flds_ in by_name.items():
+            if len(flds_) >= 5:
+                ps_ = [a_.arg for a_ in f_.args.args if a_.arg != nm_]
+                if len(ps_) == 1:
+                    cands.append((f_, nm_, ps_[0]))
+    if len(cands) != 1:
+        raise AnalysisError('%s: the function that fills the search configuration was not found' % REL)
+    return cands[0]
+
+
 def r_config_once(repo, rep, R):
     """the options of a call are read into the search configuration once, before the first sentence: the reader may
     consume the option dictionary (pop), so reading it again per sentence silently falls back to the defaults from the
     second sentence on"""
     mod = pyx.load(repo)
     run = mod.get('run')
-    ic = mod.get('init_config')
+    ic = config_reader(mod)[0]
     calls = [c for c in ast.walk(run) if isinstance(c, ast.Call) and isinstance(c.func, ast.Name) and c.func.id == ic.name]
     consumes = any(isinstance(c, ast.Call) and isinstance(c.func, ast.Attribute) and c.func.attr in ('pop', 'popitem', 'clear') for c in ast.walk(ic))
     w = '%s:%s run' % (REL, calls[0].lineno if calls else run.lineno)
@@ -945,12 +977,12 @@ def r_config_plumbing(repo, rep, R):
     """option names travel unchanged: parsing.run kwargs -> _parsing.run(**kwargs) -> init_config -> struct config."""
     r_config_once(repo, rep, R)
     mod = pyx.load(repo)
-    ic = mod.get('init_config')
-    cfgp, kwp = [a.arg for a in ic.args.args][:2]
+    ic, cfgp, kwp = config_reader(mod)
     reads = {}
     for st, out in SymExec(ic).run():
         for e in st.events:
-            if e[0] == 'setattr' and e[1] == N(cfgp):
+            if e[0] == 'setattr' and (e[1] == N(cfgp) or (cfgp not in [a_.arg for a_ in ic.args.args] and (
+                    (e[1][0] == 'call' and e[1][1] == N('__cdecl__')) or (e[1][0] == 'record' and e[1][1] == cfgp)))):
                 v = e[3]
                 key = None
                 if v[0] == 'sub' and v[1] == N(kwp) and v[2][0] == 'const':
@@ -958,8 +990,8 @@ def r_config_plumbing(repo, rep, R):
                 elif v[0] == 'call' and v[1][0] == 'attr' and v[1][1] == N(kwp) and v[1][2] in ('pop', 'get') and v[2]:
                     key = v[2][0][1] if v[2][0][0] == 'const' else None
                 reads[e[2]] = key
-    w = '%s:%s init_config' % (REL, ic.lineno)
-    want = ['num_tags', 'unary_penalty', 'beta', 'use_beta', 'pruning_size', 'nbest', 'max_step']
+    w = '%s:%s %s' % (REL, ic.lineno, ic.name)
+    want = list(CONFIG_FIELDS)
     for f in want:
         rep.check(reads.get(f) == f, R, w, 'init_config:' + f, 'config.%s is read from option %r' % (f, f),
                   'config.%s is read from %r' % (f, reads.get(f)))
